@@ -896,6 +896,22 @@ pub fn run(cfg: &Cfg) -> Stats {
                     eval(r, &mut st, case, true, true);
                 }
             }
+            // a line break followed by a long tail without one (std's line-buffered stdout takes such a buffer only in
+            // part): the count returned is what the stream accepted and the frame closes around exactly that
+            for (ki, kind) in STDIO_KINDS.iter().enumerate() {
+                for tail in [900usize, 1100, 3000, 9000] {
+                    k += 1;
+                    if k % n != shard {
+                        continue;
+                    }
+                    let mut data: Vec<u8> = b"first line\nsecond ".to_vec();
+                    data.extend((0..tail).map(|j| b'a' + (j % 26) as u8));
+                    let case = Case::new("c17-stdio").b(&data).n(2).n(12).n(ki as i64);
+                    let r = vcore::guarded(|| check_stdio(kind, 2, 12, &data));
+                    st.count("standard_stream_child_runs");
+                    eval(r, &mut st, case, true, true);
+                }
+            }
             // a writer whose own write performs a coloured write
             for (di, data) in DATA.iter().enumerate() {
                 for pair in [(0usize, 0usize), (3, 1), (0, 9), (12, 0), (5, 5)] {
